@@ -11,6 +11,7 @@ import (
 	"os/exec"
 	"path/filepath"
 	"strings"
+	"sync"
 	"time"
 	"unicode/utf8"
 
@@ -88,73 +89,112 @@ func runC04(em *vEmitter, r *vRng) {
 		qs = keep
 	}
 	fes := []string{"FSasl", "FBasic", "FApi", "FLdap", "FCli"}
+	probe := func(fe string, x q) (observed, skipped bool) {
+		switch fe {
+		case "FSasl":
+			ok, _, err := sasl.NewClient(sock).Auth(x.u, x.p, "svc", "")
+			observed = ok && err == nil
+		case "FBasic":
+			if strings.ContainsAny(x.u+x.p, "\x00\n\r") && false {
+				skipped = true
+			}
+			req := httptest.NewRequest("GET", "/basic-auth", nil)
+			req.SetBasicAuth(x.u, x.p)
+			rec := httptest.NewRecorder()
+			mux.ServeHTTP(rec, req)
+			observed = rec.Code == http.StatusOK
+		case "FApi":
+			if !utf8.ValidString(x.u) || !utf8.ValidString(x.p) {
+				skipped = true // outside JSON's limits
+				break
+			}
+			b, _ := json.Marshal(map[string]string{"username": x.u, "password": x.p})
+			rec := httptest.NewRecorder()
+			mux.ServeHTTP(rec, httptest.NewRequest("POST", "/api/authenticate", strings.NewReader(string(b))))
+			observed = rec.Code == http.StatusOK
+		case "FLdap":
+			conn, err := ldap.DialTimeout("tcp", ln.Addr().String(), 2*time.Second)
+			if err != nil {
+				skipped = true
+				break
+			}
+			err = conn.Bind(x.u, x.p)
+			conn.Close()
+			observed = err == nil
+			if x.p == "" {
+				skipped = true // the client library itself refuses empty passwords / anonymous bind semantics
+			}
+		case "FCli":
+			if strings.ContainsRune(x.u+x.p, 0) || strings.HasPrefix(x.u, "-") || x.u == "" || x.p == "" {
+				skipped = true // not expressible as an argument / means "prompt"
+				break
+			}
+			cmd := exec.Command(bin, "--store", ms.cfgfile, "authenticate", x.u, x.p)
+			cmd.Stdin = nil
+			err := cmd.Run()
+			code := 0
+			if ee, ok := err.(*exec.ExitError); ok {
+				code = ee.ExitCode()
+			} else if err != nil {
+				skipped = true
+			}
+			observed = code == 0
+		}
+		return
+	}
+	var emu sync.Mutex
+	record := func(fe string, x q, observed bool, class string) {
+		// the verdict of the store for the name this frontend looks up
+		name := x.u
+		if fe == "FLdap" {
+			name = strings.SplitN(x.u, "@", 2)[0]
+		}
+		sok, serr := storeVerdict(name, x.p)
+		emu.Lock()
+		defer emu.Unlock()
+		em.emit(vCase{Prop: "C04", Kind: "frontend", Class: class + fe, Nontrivial: true,
+			Coq:   fmt.Sprintf("FeCase %s %s %s %s %s %s", fe, cS(x.u), cS(x.p), cB(sok), cB(serr), cB(observed)),
+			Human: map[string]interface{}{"frontend": fe, "user": x.u, "password": x.p, "store_ok": sok, "store_err": serr, "accepted": observed}})
+		vStats[fmt.Sprintf("%s%s/accepted=%v", class, fe, observed)]++
+	}
 	for _, x := range qs {
 		for _, fe := range fes {
-			observed, skipped := false, false
-			switch fe {
-			case "FSasl":
-				ok, _, err := sasl.NewClient(sock).Auth(x.u, x.p, "svc", "")
-				observed = ok && err == nil
-			case "FBasic":
-				if strings.ContainsAny(x.u+x.p, "\x00\n\r") && false {
-					skipped = true
-				}
-				req := httptest.NewRequest("GET", "/basic-auth", nil)
-				req.SetBasicAuth(x.u, x.p)
-				rec := httptest.NewRecorder()
-				mux.ServeHTTP(rec, req)
-				observed = rec.Code == http.StatusOK
-			case "FApi":
-				if !utf8.ValidString(x.u) || !utf8.ValidString(x.p) {
-					skipped = true // outside JSON's limits
-					break
-				}
-				b, _ := json.Marshal(map[string]string{"username": x.u, "password": x.p})
-				rec := httptest.NewRecorder()
-				mux.ServeHTTP(rec, httptest.NewRequest("POST", "/api/authenticate", strings.NewReader(string(b))))
-				observed = rec.Code == http.StatusOK
-			case "FLdap":
-				conn, err := ldap.DialTimeout("tcp", ln.Addr().String(), 2*time.Second)
-				if err != nil {
-					skipped = true
-					break
-				}
-				err = conn.Bind(x.u, x.p)
-				conn.Close()
-				observed = err == nil
-				if x.p == "" {
-					skipped = true // the client library itself refuses empty passwords / anonymous bind semantics
-				}
-			case "FCli":
-				if strings.ContainsRune(x.u+x.p, 0) || strings.HasPrefix(x.u, "-") || x.u == "" || x.p == "" {
-					skipped = true // not expressible as an argument / means "prompt"
-					break
-				}
-				cmd := exec.Command(bin, "--store", ms.cfgfile, "authenticate", x.u, x.p)
-				cmd.Stdin = nil
-				err := cmd.Run()
-				code := 0
-				if ee, ok := err.(*exec.ExitError); ok {
-					code = ee.ExitCode()
-				} else if err != nil {
-					skipped = true
-				}
-				observed = code == 0
-			}
+			observed, skipped := probe(fe, x)
 			if skipped {
 				continue
 			}
-			// the verdict of the store for the name this frontend looks up
-			name := x.u
-			if fe == "FLdap" {
-				name = strings.SplitN(x.u, "@", 2)[0]
-			}
-			sok, serr := storeVerdict(name, x.p)
-			em.emit(vCase{Prop: "C04", Kind: "frontend", Class: "frontend/" + fe, Nontrivial: true,
-				Coq:   fmt.Sprintf("FeCase %s %s %s %s %s %s", fe, cS(x.u), cS(x.p), cB(sok), cB(serr), cB(observed)),
-				Human: map[string]interface{}{"frontend": fe, "user": x.u, "password": x.p, "store_ok": sok, "store_err": serr, "accepted": observed}})
-			vStats[fmt.Sprintf("%s/accepted=%v", fe, observed)]++
+			record(fe, x, observed, "frontend/")
 		}
+	}
+	// the same questions from many clients at once: nothing in the store changes, so every answer must
+	// still be the store's verdict for that very pair (answers must not cross between connections)
+	{
+		nworkers, per := 24, 40
+		if vThorough() {
+			per = 400
+		}
+		var wg sync.WaitGroup
+		for w := 0; w < nworkers; w++ {
+			wg.Add(1)
+			rr := vNewRng(r.next())
+			go func(w int, rr *vRng) {
+				defer wg.Done()
+				fe := []string{"FSasl", "FBasic", "FApi", "FLdap"}[w%4]
+				for i := 0; i < per; i++ {
+					// alternate right and wrong credentials so that neighbouring answers differ
+					x := qs[rr.intn(len(qs))]
+					if i%2 == 0 {
+						a := accts[rr.intn(len(accts))]
+						x = q{a.user, a.pw}
+					}
+					observed, skipped := probe(fe, x)
+					if !skipped {
+						record(fe, x, observed, "frontend-concurrent/")
+					}
+				}
+			}(w, rr)
+		}
+		wg.Wait()
 	}
 	em.emit(vCase{Prop: "C04", Kind: "stats", Class: "stats", Human: vStats})
 }
